@@ -46,6 +46,23 @@ var checkC01 = register("C01/decode", func(c scoreCase3) string {
 	if !grid || k != want {
 		return fmt.Sprintf("base score %v, exact FIRST value %d.%d", fmtScore(got), want/10, want%10)
 	}
+	// the same observation after the higher levels of the object have been queried
+	if level != spec.Base {
+		var again float64
+		if level == spec.Temporal {
+			o.T.Score()
+			o.T.Severity()
+			again = o.T.BaseMetrics().Score()
+		} else {
+			o.E.Score()
+			o.E.Severity()
+			o.E.TemporalMetrics().Score()
+			again = o.E.BaseMetrics().Score()
+		}
+		if again != got {
+			return fmt.Sprintf("base score %v read before, %v read after the higher-level scores of the same object were queried (exact FIRST value %d.%d)", fmtScore(got), fmtScore(again), want/10, want%10)
+		}
+	}
 	allNone := idx.B[5] == 2 && idx.B[6] == 2 && idx.B[7] == 2 // C, I, A codes H,L,N
 	if (k == 0) != allNone {
 		return fmt.Sprintf("base score %v but C/I/A all None = %v", fmtScore(got), allNone)
